@@ -21,9 +21,13 @@ pub fn generate(prop: &str, run_seed: u64, _index: u64, tier: Tier) -> Trace {
         "C15" => 3 + rc.below(2),
         "C16" => rc.weighted(&[5, 3, 3, 0, 0]) as u64,
         "C14" => 2,
+        "C08" | "C07" => rc.weighted(&[4, 4, 4, 4, 4, 3]) as u64,
         _ => rc.below(5),
     };
     t.set_param("kind", kind);
+    if kind == 5 {
+        t.set_param("ckind", rc.below(4));
+    }
     t.set_param("carrier", rc.below(2));
     t.set_param("policy", rc.below(5));
     t.set_param("heap_seed", rc.next() >> 16);
@@ -44,13 +48,13 @@ pub fn generate(prop: &str, run_seed: u64, _index: u64, tier: Tier) -> Trace {
         (K_RESIZE_WITH, 3), (K_EXT_SLICE, 4), (K_EXT_WITHIN, 4), (K_APPEND, 5), (K_RESERVE, 3), (K_RESERVE_EXACT, 2), (K_EXTEND, 4), (K_RETAIN, 4),
         (K_DEDUP_KEY, 2), (K_DEDUP_BY, 2), (K_DEDUP, 1), (K_DRAIN, 5), (K_EXTRACT_IF, 3), (K_SHRINK_TO_FIT, 2), (K_SHRINK_TO, 1), (K_NEW, 4), (K_DROP, 2),
         (K_SPLIT_OFF, 3), (K_MERGE_BACK, 2), (K_INTO_BOX, 2), (K_INTO_ITER, 2), (K_MAP, 2), (K_MAP_IN_PLACE, 2), (K_SPLICE, 3), (K_NOISE, 4),
-        (K_FINALIZE, 3), (K_HELPER, 3), (K_SPLIT_AT, 3), (K_PARTITION, 2), (K_CONVERT, 2), (K_PART_OP, 2), (K_CLONE, 2), (K_TRY_WITH, 3), (K_FLATTEN, 2),
+        (K_FINALIZE, 3), (K_HELPER, 3), (K_SPLIT_AT, 3), (K_PARTITION, 2), (K_CONVERT, 2), (K_PART_OP, 2), (K_CLONE, 2), (K_TRY_WITH, 3), (K_FLATTEN, 2), (K_SPLIT_SPARE, 2),
     ];
     for &(k, x) in base {
         w[k as usize] = x;
     }
     if prop == "C16" {
-        for k in [K_SPLIT_OFF, K_SPLIT_AT, K_PARTITION, K_MERGE_BACK, K_NOISE, K_PART_OP, K_CONVERT, K_MAP_IN_PLACE, K_INTO_BOX, K_FLATTEN] {
+        for k in [K_SPLIT_OFF, K_SPLIT_AT, K_PARTITION, K_MERGE_BACK, K_NOISE, K_PART_OP, K_CONVERT, K_MAP_IN_PLACE, K_INTO_BOX, K_FLATTEN, K_SPLIT_SPARE] {
             w[k as usize] *= 4;
         }
     }
